@@ -32,7 +32,7 @@ MIN_REACH = {
     "rows_decoded": {"quick": 1200, "thorough": 20000},
     "crop_runs": {"quick": 60, "thorough": 1000},
     "new_samplers": {"quick": 60, "thorough": 1000},
-    "older_sampler_reused": {"quick": 15, "thorough": 250},
+    "older_sampler_reused": {"quick": 8, "thorough": 150},
     "generator_draws_matched": {"quick": 300, "thorough": 5000},
 }
 TIME_BUDGET = {"quick": 400, "thorough": 3400}
@@ -48,7 +48,11 @@ def cases(ctx):
                  "override": rng.choice([None, None, "lists", "gens", "mixed"]), "shuffle": rng.choice([False, False, True, 5]),
                  "batchsize": rng.choice([None, 1, 2, 3, 5]), "reload_crop": rng.random() < 0.5, "rseed": rng.randint(0, 10 ** 9)}
             runs.append(r)
-        yield {"runs": runs, "engine": rng.choice(["pickle", "pickle", "csv"]), "kind": rng.choice(["float", "multi:s,s", "int", "str"]),
+        no_args = rng.random() < 0.08
+        if no_args:
+            for r in runs:
+                r["override"] = None
+        yield {"runs": runs, "no_args": no_args, "engine": rng.choice(["pickle", "pickle", "csv"]), "kind": rng.choice(["float", "multi:s,s", "int", "str"]),
                "constants": rng.choice([{}, {"kc": 3}, {"kc": "zz", "k2": 1.5}]), "mem_only": rng.random() < 0.1,
                "default_kind": rng.choice(["lists", "mixed"])}
 
@@ -78,7 +82,10 @@ def run_case(ctx, case):
     constants = dict(case["constants"])
     var_names = ["y", "z"] if kind.startswith("multi") else "y"
     outs = ["y", "z"] if kind.startswith("multi") else ["y"]
-    args = ["a", "b", "x"]
+    args = ["a", "b", "x"] if not case.get("no_args") else []      # no_args: every argument of the function is a constant
+    if case.get("no_args"):
+        constants = dict(constants, kfix=2)
+        ctx.count("samplers_without_sampled_arguments")
     POOLS = {"a": [1, 2, 3, 5, 8], "b": ["u", "v", "w"], "x": [0.25, 1.5, -2.75, 10.125]}
     logfile = os.path.join(tmp, "calls.log")
     fn = probe.Probe(kind, logfile=logfile, name="sprobe")
@@ -89,7 +96,7 @@ def run_case(ctx, case):
         dc = {}
         for a in args:
             dc[a] = list(POOLS[a]) if case["default_kind"] == "lists" or a != "x" else LoggingGen(rng, POOLS[a], draws.setdefault(a, []))
-        return xyzpy.Sampler(runner, data_name=data_name, default_combos=dc, engine=engine)
+        return xyzpy.Sampler(runner, data_name=data_name, default_combos=dc or None, engine=engine)
 
     draws = {}
     s = None
